@@ -293,17 +293,24 @@ func (c *simCluster) createDataset(via uint64, dim, parts, repl uint32, space pb
 		}
 		d0, _ := c.nodes[hosts[0]].node.DatasetManager.Get(id)
 		d0.VerifPartitionAt(pi).Raft().VerifCampaign()
-		ok = waitFor(10*time.Second, func() bool {
+		lastCampaign := time.Now()
+		ok = waitFor(40*time.Second, func() bool {
 			for _, h := range hosts {
 				d, _ := c.nodes[h].node.DatasetManager.Get(id)
 				if d.VerifPartitionAt(pi).Raft().VerifStatus().Lead == 0 {
+					// a lost first round (replicas still starting, a loaded machine) is retried by raft's own
+					// election timer after 1-2 s; nudge it
+					if time.Since(lastCampaign) > 3*time.Second {
+						lastCampaign = time.Now()
+						d0.VerifPartitionAt(pi).Raft().VerifCampaign()
+					}
 					return false
 				}
 			}
 			return true
 		})
 		if !ok {
-			return id, fmt.Errorf("partition %d: no leader within 10 s", pi)
+			return id, fmt.Errorf("partition %d: no leader within 40 s", pi)
 		}
 	}
 	return id, nil
